@@ -22,7 +22,7 @@ ENTRIES = {
                 "2x2 ODS, every target namespace (present, absent inside a row's range, below/above every range, "
                 "parity) and, for the honest namespace data, one edit out of: drop / duplicate / reorder / add a row "
                 "entry, drop or add a boundary share together with the genuine NMT proof of the new range, substitute "
-                "the entry of another namespace or another row, presence<->absence swap, altered share. The spec's "
+                "the entry of another namespace or another row, presence<->absence swap, altered share; and single rows -- RowNamespaceData::verify(id(row, namespace)) for every row whether or not its root range covers the namespace, with the row's or a foreign absence / presence proof combined with shares of that namespace taken from any row. The spec's "
                 "brute-force scan decides the verdict (honest accepted; content different from the scan rejected) and "
                 "TLC checks the verifier design (row count + per-row complete-namespace contract) against it. Cases "
                 "are concretised on real squares of widths 4..16 (..32 thorough) whose ODS cells are scaled to blocks, "
@@ -51,7 +51,7 @@ ENTRIES = {
     "C08": {
         "text": "Model checking: TLC checks the shape-validation decision table of spec/SqEds.tla (order of checks of "
                 "ExtendedDataSquare::new / from_ods against the statement: square, power-of-two width within the app "
-                "version's bounds, share size, namespaces sorted along rows and columns) over candidate widths incl. "
+                "version's bounds, share size, namespaces sorted along rows and columns; one inversion at every line and every position of the original quadrant for ODS widths 2, 4, 8) over candidate widths incl. "
                 "0, non-powers, the maximum, twice the maximum, counts off by one, and one defect; every row of the "
                 "table is replayed on the real constructors. Exploration: for every accepted original square the first "
                 "quadrant is compared and every row and column is re-encoded with leopard; all subsets of the 2K "
